@@ -78,7 +78,6 @@ def make_listener(td, kind):
 def one(case, pl):
     td = _install()
     del _PICKS[:]
-    mdp = build_mdp(case["mdp"])
     kind = case["learner"]
     cls = {"ql": td.QLearning, "sarsa": td.SARSA, "esarsa": td.ExpectedSARSA, "dq": td.DoubleQLearning}[kind]
     iq = case["initial_q"]
@@ -89,21 +88,28 @@ def one(case, pl):
     else:
         tbl = [[fl(x) for x in row] for row in iq["table"]]
         initial_q = lambda s, a: tbl[s][a]
+    # ONE learner object for all stages: train_on(A), train_on(B), train_on(A) ... (same state/action labels);
+    # nothing learnt or cached on one problem may leak into the next result
     learner = cls(episodes=int(case["episodes"]), step_size=fl(case["alpha"]), rand_choose=fl(case["eps"]),
                   softmax_temp=fl(case["temp"]), initial_q=initial_q, seed=int(case["seed"]),
                   event_listener_class=make_listener(td, kind))
-    res = learner.train_on(mdp)
-    q = res.q_values
-    keys = [k for k in dict.keys(q)]
-    table = [[s, [[a, fj(v)] for a, v in dict.items(dict.__getitem__(q, s))]] for s in keys]
-    policy = []
-    for s in range(case["mdp"]["n"]):
-        d = res.policy.action_dist(s)
-        policy.append([[a, fj(p)] for a, p in d.items()])
-    keys_after = [k for k in dict.keys(res.q_values)]
-    return {"episodes": res.event_listener_results, "keys": keys, "table": table, "policy": policy,
-            "keys_after_policy": keys_after,
-            "actions": [list(mdp.actions(s)) for s in range(case["mdp"]["n"])]}
+    out = []
+    for spec in (case.get("stages") or [case["mdp"]]):
+        del _PICKS[:]
+        mdp = build_mdp(spec)
+        res = learner.train_on(mdp)
+        q = res.q_values
+        keys = [k for k in dict.keys(q)]
+        table = [[s, [[a, fj(v)] for a, v in dict.items(dict.__getitem__(q, s))]] for s in keys]
+        policy = []
+        for s in range(spec["n"]):
+            d = res.policy.action_dist(s)
+            policy.append([[a, fj(p)] for a, p in d.items()])
+        keys_after = [k for k in dict.keys(res.q_values)]
+        out.append({"episodes": res.event_listener_results, "keys": keys, "table": table, "policy": policy,
+                    "keys_after_policy": keys_after,
+                    "actions": [list(mdp.actions(s)) for s in range(spec["n"])]})
+    return {"stages": out}
 
 
 if __name__ == "__main__":
